@@ -95,8 +95,8 @@ def _replay_law(name, label, law):
             "nan": "bad = math.isnan(y) != math.isnan(x)",
             "mono_inc": "bad = x <= x2 and not (y <= y2 + tol)",
             "mono_dec": "bad = x <= x2 and not (y >= y2 - tol)",
-            "arrays": "r = t.membership(np.array([x, x2, x])); r2 = t.membership(np.array([[x, x2], [x2, x]]));"
-                      " bad = not (same(r, [y, y2, y], 0.0) and same(r2, [[y, y2], [y2, y]], 0.0))",
+            "arrays": "xa = np.array([x, x2, x]); xb = np.array([[x, x2], [x2, x]]); r = t.membership(xa); r2 = t.membership(xb);"
+                      " bad = not (same(r, [y, y2, y], 0.0) and same(r2, [[y, y2], [y2, y]], 0.0) and same(xa, [x, x2, x]) and same(xb, [[x, x2], [x2, x]]))",
         }[law])
         lines.append(f"verdict(bad, '{name}.{law}: x=%r -> %r ; x2=%r -> %r (h=%r)' % (x, y, x2, y2, h))")
         return "\n".join(lines)
@@ -244,17 +244,18 @@ def ob_arrays(name, tier):
         t = mk(fl, name, P, h)
 
         def body():
-            r1 = t.membership(sym_array(xs))
-            r2 = t.membership(sym_array(m))
+            A1, A2 = sym_array(xs), sym_array(m)
+            r1 = t.membership(A1)
+            r2 = t.membership(A2)
             e1 = [t.membership(v) for v in xs]
             e2 = [[t.membership(v) for v in row] for row in m]
-            return r1, e1, r2, e2
+            return r1, e1, r2, e2, A1, A2
 
         for p in ob.paths(pre, body):
             if p.exc is not None:
                 ob.unexpected(pre, p, f"{name}/R/arrays", _inputs(P, h, xs[0], xs[1]), _replay_law(name, f"{name}/R/arrays", "arrays"))
                 continue
-            r1, e1, r2, e2 = p.result
+            r1, e1, r2, e2, A1, A2 = p.result
             if kind_of(r1) != ("array", (n1,)) or kind_of(r2) != ("array", (2, cols)):
                 ob.error(f"result kinds {kind_of(r1)} {kind_of(r2)}")
                 continue
@@ -262,6 +263,63 @@ def ob_arrays(name, tier):
             rp = _replay_law(name, f"{name}/R/arrays", "arrays")
             ob.prove(pre, p, all_same(r1, e1), f"{name}/R/arrays/1d", ins, rp)
             ob.prove(pre, p, all_same(r2, e2), f"{name}/R/arrays/2d", ins, rp)
+            ob.prove(pre, p, z3.And(all_same(A1, xs), all_same(A2, m)), f"{name}/R/arrays/argument-not-modified", ins, rp)
+
+    return run
+
+
+def ob_reuse(name):
+    """one term object evaluated, then given new (valid) parameters and height through its attributes, then evaluated again:
+    the second value is the documented one for the *current* parameters (nothing derived from the old ones may survive)"""
+    def run(ob):
+        fl = install()
+        set_mode("R")
+        params, valid, mu, at_inf, mono = spec.TERMS[name]
+        P0 = {k: rvar(k + "_old") for k in params}
+        P = sym_params(name)
+        h0, h, x0, x = rvar("h_old"), rvar("h"), rvar("x_old", special=True), rvar("x")
+        Pv0, Pv = {k: v.v for k, v in P0.items()}, {k: v.v for k, v in P.items()}
+        pre = [valid(Pv0), valid(Pv)] + hpre(h0) + hpre(h) + wf(x0)
+        ctx = spec.Ctx()
+        expected = h.v * mu(ctx, x.v, Pv)
+        ins = _inputs(P, h, x)
+        ins.update({k + "_old": v for k, v in P0.items()})
+        ins.update({"h_old": h0, "x_old": x0})
+        label = f"{name}/R/reuse"
+
+        def rbody(v):
+            env = {pv.v.decl().name(): v[k] for k, pv in ins.items() if isinstance(pv, core.RFloat) and z3.is_const(pv.v) and not z3.is_rational_value(pv.v)}
+            try:
+                exp = zeval(expected, env, ctx.witness)
+            except Exception:  # noqa
+                exp = math.nan
+            old = {k: v[k + "_old"] for k in params}
+            old["h"] = v["h_old"]
+            return "\n".join([f"t = {py_ctor(name, old)}", f"t.membership({lit(v['x_old'])}); t.membership(np.array([{lit(v['x_old'])}]))"] +
+                              [f"t.{k} = {lit(v[k])}" for k in params] + [f"t.height = {lit(v['h'])}", f"x = {lit(v['x'])}", f"expected = {lit(float(exp))}",
+                               "y = float(t.membership(x))",
+                               f"verdict(not same(y, expected, 1e-9), '{name} re-parameterised: membership(%r) = %r, documented for the current parameters %r' % (x, y, expected))"])
+
+        rp = replay_fn(PROPERTY, label, rbody, key=label)
+
+        def body():
+            t = mk(fl, name, P0, h0)
+            t.membership(x0)
+            t.membership(sym_array([x0]))
+            for k in params:
+                if not hasattr(t, k):
+                    raise AssertionError(f"{name} has no attribute {k}")
+                setattr(t, k, P[k])
+            t.height = h
+            return t.membership(x)
+
+        for p in ob.paths(pre, body):
+            if p.exc is not None:
+                ob.unexpected(pre, p, label, ins, rp)
+                continue
+            y = tf(p.result)
+            ob.prove(pre, p, is_val(y, expected), label, ins, rp, extra=ctx.assumptions)
+            ob.expect_sat(pre, p, is_val(y, expected + 1), f"{label}/twin")
 
     return run
 
@@ -614,6 +672,7 @@ def _obligations(tier, seed):
         if name in spec.INCREASING:
             obs.append((f"{name}/R/monotone", ob_mono(name)))
         obs.append((f"{name}/R/arrays", ob_arrays(name, tier)))
+        obs.append((f"{name}/R/reuse", ob_reuse(name)))
     obs.append(("flags/is_monotonic", ob_not_monotonic_flag))
     obs += special_cases()
     obs.append(("Constant/R/def", ob_constant))
